@@ -1,10 +1,9 @@
-//go:build verif
+//go:build verif && verif_padburst
 
 package obfs4
 
 import (
 	"bytes"
-	"net"
 
 	"gitlab.com/yawning/obfs4.git/transports/obfs4/framing"
 )
@@ -20,29 +19,4 @@ func VerifPadBurst(tail, target int) (added int, err error) {
 		return 0, err
 	}
 	return burst.Len() - tail, nil
-}
-
-// VerifBuffered reports how many undecoded and decoded-but-unread bytes an
-// obfs4 connection currently holds.
-func VerifBuffered(conn net.Conn) (undecoded, decoded int, ok bool) {
-	c, ok := conn.(*obfs4Conn)
-	if !ok {
-		return 0, 0, false
-	}
-	return c.receiveBuffer.Len(), c.receiveDecodedBuffer.Len(), true
-}
-
-// VerifConstants exposes the framing/handshake constants the monitors compare
-// their own (specification derived) values with.
-func VerifConstants() map[string]int {
-	return map[string]int{
-		"maxHandshakeLength":     maxHandshakeLength,
-		"clientMinPadLength":     clientMinPadLength,
-		"clientMaxPadLength":     clientMaxPadLength,
-		"serverMinPadLength":     serverMinPadLength,
-		"serverMaxPadLength":     serverMaxPadLength,
-		"inlineSeedFrameLength":  inlineSeedFrameLength,
-		"maxPacketPayloadLength": maxPacketPayloadLength,
-		"headerLength":           headerLength,
-	}
 }
